@@ -114,7 +114,7 @@ def strat(tier):
         st.tuples(st.just('replace-distance'), st.integers(1, 2)),
         st.tuples(st.just('reopen'), st.just(0)),
         st.tuples(st.just('wrong-batch-size'), st.integers(1, 3)),
-        st.tuples(st.just('wrong-seed'), st.integers(1, 1000)),
+        st.tuples(st.just('wrong-seed'), st.sampled_from([0, 0, 1, 2, 7, 1000, 2 ** 31])),   # 0: the literal seed 0
         st.tuples(st.just('fresh-sampler-no-seed'), st.integers(1, 4)),
     )
     return st.fixed_dictionaries({
@@ -314,7 +314,7 @@ def run_case(case):
                 if pool.has_context:
                     before = held_now()
                     m = build(desc, variant)
-                    kw = {'batch_size': bs + arg, 'seed': seed} if op == 'wrong-batch-size' else {'batch_size': bs, 'seed': (seed + arg) % (2 ** 32)}
+                    kw = {'batch_size': bs + arg, 'seed': seed} if op == 'wrong-batch-size' else {'batch_size': bs, 'seed': 0 if (arg == 0 and seed != 0) else (seed + max(arg, 1)) % (2 ** 32)}
                     try:
                         elfi.Rejection(m['d'], pool=pool, output_names=outs, **kw).sample(n, n_sim=max(n, bs), bar=False)
                     except ValueError:
